@@ -172,6 +172,7 @@ type run struct {
 	res *Result
 	em  *EModel
 
+	muted    bool   // seam events are passed through unrecorded (preliminary, unjudged call)
 	aborted  string // "" | envelope | runaway: the run is being wound down, nothing is judged any more
 	abortWhy string
 	seq      int
@@ -211,6 +212,37 @@ type realFacts struct {
 	f, g *grl.Fact
 	ctx  ast.IDataContext
 	has  map[string]bool
+}
+
+// overwrite changes the caller's fact objects IN PLACE to new values (the caller's own Go code
+// doing so between two calls that use the same data context).
+func (rf *realFacts) overwrite(f *grl.Facts, hooks *grl.Hooks) error {
+	st := grl.NewState(f)
+	for k, v := range st {
+		switch k {
+		case "F":
+			if rf.f == nil {
+				return fmt.Errorf("fact F absent in the first fact set")
+			}
+			*rf.f = *(v.(*grl.Fact))
+			rf.f.Bind("F", hooks)
+		case "G":
+			if rf.g == nil {
+				return fmt.Errorf("fact G absent in the first fact set")
+			}
+			*rf.g = *(v.(*grl.Fact))
+			rf.g.Bind("G", hooks)
+		case "J":
+			if err := rf.ctx.AddJSON("J", f.J); err != nil {
+				return err
+			}
+		default:
+			if err := rf.ctx.Add(k, v); err != nil {
+				return err
+			}
+		}
+	}
+	return nil
 }
 
 // State reads the caller-visible fact state from the real objects.
@@ -286,6 +318,9 @@ func (r *run) Step(ev *seams.Event) seams.FaultKind {
 }
 
 func (r *run) step(ev *seams.Event) seams.FaultKind {
+	if r.muted {
+		return seams.NoFault
+	}
 	r.seq++
 	ev.Seq = r.seq
 	r.now += int64(core.Mix(r.sc.LatSeed, uint64(r.seq))%5_000_000) + 1
@@ -381,7 +416,7 @@ func (r *run) step(ev *seams.Event) seams.FaultKind {
 
 // order implements simhook.Order for the engine loops.
 func (r *run) order(site string, keys []string) []string {
-	if (site != "engine.exec" && site != "engine.fetch") || r.aborted != "" {
+	if (site != "engine.exec" && site != "engine.fetch") || r.aborted != "" || r.muted {
 		return keys
 	}
 	var perm []int
@@ -423,7 +458,7 @@ func ApplyPerm(keys []string, perm []int) []string {
 
 // visit implements simhook.Step for the engine loops: the loop body is about to receive rule key.
 func (r *run) visit(site, key string) {
-	if (site != "engine.exec" && site != "engine.fetch") || r.aborted != "" {
+	if (site != "engine.exec" && site != "engine.fetch") || r.aborted != "" || r.muted {
 		return
 	}
 	r.phase, r.curRule, r.visitSeq = "eval", key, r.seq+1
@@ -601,7 +636,11 @@ func Prepare(sc *core.Scenario, kb *ast.KnowledgeBase, res *Result) *Handle {
 		r.logf("-- method %s.%s%v", fact, method, args)
 		r.em.onMethod(r, fact, method)
 	}}
-	rf, err := prepareFacts(sc.Facts, r.factHooks)
+	first := sc.Facts
+	if sc.Knobs.RefetchFrom != nil && r.mode == "fetch" {
+		first = sc.Knobs.RefetchFrom
+	}
+	rf, err := prepareFacts(first, r.factHooks)
 	if err != nil {
 		res.HarnessErr = "facts: " + err.Error()
 		return nil
@@ -628,6 +667,21 @@ func (h *Handle) Execute() {
 		r.cancelled, r.cancelSeq = true, 0
 	}
 
+	if sc.Knobs.RefetchFrom != nil && r.mode == "fetch" {
+		// unjudged first fetch on the old values, then the caller changes its facts in place
+		r.muted = true
+		func() {
+			defer func() { _ = recover() }()
+			_, _ = eng.FetchMatchingRules(dctx, kb)
+		}()
+		r.muted = false
+		if err := rf.overwrite(sc.Facts, r.factHooks); err != nil {
+			res.HarnessErr = "refetch: " + err.Error()
+			return
+		}
+		r.em.before = grl.Canon(rf.State())
+		res.Probes["refetch-on-same-data-context"]++
+	}
 	var retErr error
 	var matched []*ast.RuleEntry
 	panicked := func() (p interface{}) {
